@@ -6,7 +6,7 @@ EMPTY_COVERAGE = dict(evaluations=0, distinct_nontrivial=0, rule="", samples=[])
 
 
 def run(ctx):
-    backends = ["asm", "c32", "generic"] if not ctx.thorough else ["asm", "c64", "c32", "dxor", "generic"]
+    backends = ["asm", "c64", "c32", "dxor", "generic"]
     jobs = []
     for be in backends:
         lib = build.build_lib(be)
